@@ -29,7 +29,7 @@ def run_pipeline(job):
     from jaqalpaq.core.algorithm import expand_macros, fill_in_let
     from jaqalpaq.run import run_jaqal_circuit
     prog, ovr = job['prog'], job['ovr']
-    text = render.render_prog(prog)
+    text = render.render_prog(prog, macros_last=bool(job.get('ml')))
     stages = []
     applies = []
 
@@ -61,7 +61,7 @@ def run_pipeline(job):
         hooked = obs['hooked']
     while len(stages) < 4:
         stages.append({'stage': ['parse', 'let', 'macro', 'run'][len(stages)], 'cls': 'skipped', 'msg': ''})
-    return {'id': job['id'], 'model': passes.compress(prog), 'ovr': ovr, 'stages': stages, 'applies': applies, 'hooked': hooked, 'direct': direct,
+    return {'id': job['id'], 'model': passes.compress(prog), 'ovr': ovr, 'stages': stages, 'applies': applies, 'hooked': hooked, 'direct': direct, 'ml': bool(job.get('ml')),
             'text': text + ' | override %s | %s' % (passes.ovr_dict(ovr), [(s['stage'], s['cls']) for s in stages])}
 
 
@@ -136,6 +136,10 @@ def main(tier):
             for m, o in enumerate(OVRS):
                 ovr = [{'v': k, 'val': project.num(v)} for k, v in o]
                 jobs.append({'id': '%s/%d/o%d' % (name, n, m), 'prog': p, 'ovr': ovr})
+            if p['macros']:
+                # the same program with the macro definitions written AFTER the body: a call in the body then names a macro
+                # that is not defined yet (whether the body has such a call is the specification's business)
+                jobs.append({'id': '%s/%d/ml' % (name, n), 'prog': p, 'ovr': [], 'ml': True})
             if n % 3 == 0:
                 # one integer literal replaced by another small value (0 and -1 included); validity is the spec's business
                 for q in passes.edge_variants(p, rng):
